@@ -106,7 +106,8 @@ def canon_blocks(tree):
     """block normal forms, applied after CanonCompare:
     * `if c: ...; return/raise/continue/break  else: REST` (and the same spelled as an elif chain) is read as `if c: ...` followed by REST;
     * `t = E; return t` with t used nowhere else in the function is read as `return E`;
-    * an annotated assignment of a local name is read as a plain assignment, and a `pass` that is not the only statement of its block is dropped."""
+    * an annotated assignment of a local name is read as a plain assignment, and a `pass` that is not the only statement of its block is dropped;
+    * `t = g(...); x = f(..., t, ...)` with t used nowhere else is read as `x = f(..., g(...), ...)` (a temporary introduced for a nested call)."""
     def flatten(stmts):
         out = []
         for s in stmts:
@@ -149,6 +150,38 @@ def canon_blocks(tree):
                 for v in blocks:
                     v[-1].value = v[-2].value
                     del v[-2]
+        # `t = g(...); x = f(..., t, ...)` (t occurring nowhere else in the function, t a direct positional argument of the call that is the
+        # value of the next statement, every earlier argument free of calls) is read as `x = f(..., g(...), ...)`
+        changed = True
+        while changed:
+            changed = False
+            counts = {}
+            for n in ast.walk(fn):
+                if isinstance(n, ast.Name):
+                    counts[n.id] = counts.get(n.id, 0) + 1
+            for node in ast.walk(fn):
+                for owner, f, v in list(_blocks(node)):
+                    for i in range(len(v) - 1):
+                        a, b = v[i], v[i + 1]
+                        if not (isinstance(a, ast.Assign) and len(a.targets) == 1 and isinstance(a.targets[0], ast.Name) and isinstance(a.value, ast.Call)):
+                            continue
+                        t = a.targets[0].id
+                        call = b.value if isinstance(b, (ast.Assign, ast.Return, ast.Expr)) else None
+                        if counts.get(t) != 2 or not isinstance(call, ast.Call) or any(isinstance(x, ast.Call) for x in ast.walk(call.func)):
+                            continue
+                        for k, arg in enumerate(call.args):
+                            if isinstance(arg, ast.Name) and arg.id == t:
+                                if not any(isinstance(x, ast.Call) for e in call.args[:k] for x in ast.walk(e)):
+                                    call.args[k] = a.value
+                                    del v[i]
+                                    changed = True
+                                break
+                        if changed:
+                            break
+                    if changed:
+                        break
+                if changed:
+                    break
     return tree
 
 
